@@ -23,13 +23,13 @@ C = dict(
         _src("small", "MetaStore_PlanSmall.cfg", "etcd", cap={"quick": 250, "thorough": 4000}, workers=4),
         # random deep plans, dense and full adversarial universe, with faults
         _src("dense", "MetaStore_PlanDense.cfg", "mysql", simulate={"quick": 150, "thorough": 3000}, depth=12,
-             cap={"quick": 450, "thorough": 9000}),
+             cap={"quick": 800, "thorough": 9000}),
         _src("dense", "MetaStore_PlanDense.cfg", "etcd", simulate={"quick": 150, "thorough": 3000}, depth=12,
-             cap={"quick": 150, "thorough": 2500}),
+             cap={"quick": 250, "thorough": 2500}),
         _src("sim", "MetaStore_PlanSim.cfg", "mysql", simulate={"quick": 150, "thorough": 3000}, depth=12,
-             cap={"quick": 450, "thorough": 9000}),
+             cap={"quick": 450, "thorough": 9000}, tiers=["thorough"]),
         _src("sim", "MetaStore_PlanSim.cfg", "etcd", simulate={"quick": 150, "thorough": 3000}, depth=12,
-             cap={"quick": 150, "thorough": 2500}),
+             cap={"quick": 150, "thorough": 2500}, tiers=["thorough"]),
     ],
     directed="plans/C12.jsonl",
     trace=("MetaStore_Trace", "MetaStore_Trace.cfg"),
